@@ -127,3 +127,64 @@ fn v2_server_mutable_seq_cas() {
     kani::cover!(code.is_none() && has_prev);
     std::mem::forget(reply); std::mem::forget(server); std::mem::forget(rt);
 }
+
+fn vi_cut(_v: &[u8], _t: Id) -> bool { unsafe { CUT_REACHED = true; } false }
+fn closest_cut(_rt: &RoutingTable, _t: Id) -> Box<[crate::common::Node]> { unsafe { CUT_REACHED = true; } Box::new([]) }
+
+#[kani::proof]
+#[kani::stub(crate::common::mutable::MutableItem::from_dht_message, fdm_contract)]
+#[kani::stub(crate::common::mutable::MutableItem::target_from_key, tfk_stub)]
+#[kani::stub(crate::common::signed_announce::SignedAnnounce::from_dht_request, sa_stub)]
+#[kani::stub(crate::common::immutable::validate_immutable, vi_cut)]
+#[kani::stub(crate::common::routing_table::RoutingTable::closest, closest_cut)]
+#[kani::stub(std::time::Instant::now, clock::now)]
+#[kani::stub(getrandom::fill, rs::fill)]
+#[kani::unwind(26)]
+fn v3_server_mutable_seq_cas_cuts() {
+    clock::set(0);
+    let mut server = Server::new(small_settings());
+    let rt = RoutingTable::new(Id::from([1u8; 20]));
+    let from = SocketAddrV4::new([10, 0, 0, 7].into(), 6881);
+    let token = server.tokens.generate_token(from);
+    let target = Id::from([3u8; 20]);
+    let has_prev: bool = kani::any();
+    let seq0: i64 = kani::any();
+    let val0: u8 = kani::any();
+    if has_prev {
+        let prev = MutableItem::new_signed_unchecked([1; 32], [2; 64], &[val0], seq0, None);
+        server.mutable_values.put(target, prev);
+    }
+    let seq: i64 = kani::any();
+    let cas: Option<i64> = kani::any();
+    let val: u8 = kani::any();
+    unsafe { ORACLE_VALID = kani::any(); }
+    let valid = unsafe { ORACLE_VALID };
+    let req = RequestSpecific {
+        requester_id: Id::from([2u8; 20]),
+        request_type: RequestTypeSpecific::Put(PutRequest {
+            token: Box::new(token),
+            put_request_type: PutRequestSpecific::PutMutable(PutMutableRequestArguments {
+                target, v: Box::new([val]), k: [1; 32], seq, sig: [2; 64], salt: None, cas,
+            }),
+        }),
+    };
+    let reply = server.handle_request(&rt, &rt, from, req);
+    let now = server.mutable_values.peek(&target);
+    if has_prev { assert!(now.is_some()); assert!(now.unwrap().seq() >= seq0); }
+    let code = match &reply { Some(MessageType::Error(e)) => Some(e.code), _ => None };
+    let cas_bad = has_prev && cas.is_some() && cas != Some(seq0);
+    if cas_bad { assert!(code == Some(301)); }
+    else if has_prev && seq < seq0 { assert!(code == Some(302)); }
+    else if !valid { assert!(code == Some(206)); }
+    else { assert!(code.is_none()); assert!(now.unwrap().seq() == seq); }
+    if code.is_some() {
+        if has_prev { assert!(now.unwrap().seq() == seq0); }
+        else { assert!(now.is_none()); }
+    }
+    assert!(unsafe { !CUT_REACHED });
+    kani::cover!(code == Some(301));
+    kani::cover!(code == Some(302));
+    kani::cover!(code == Some(206));
+    kani::cover!(code.is_none() && has_prev);
+    std::mem::forget(reply); std::mem::forget(server); std::mem::forget(rt);
+}
